@@ -13,11 +13,24 @@
     scalar <n>          → 1 | 0          (`char::from_u32(n).is_some()`)
     lower <hex> / upper <hex> → hex      (`make_ascii_lowercase/uppercase`)
     lossy <hex>         → hex            (`String::from_utf8_lossy`)
+  Conversion doors (C06, `Model/Utf8Conv.lean`; UTF-16 as hex of big-endian 16-bit units):
+    tostr <hex>         → some:<hex> | none         (`OsStr::to_str`, `HipOsStr::to_str`)
+    intostr <hex>       → ok:<hex> | err:<hex>      (`into_str`: Err hands the value back)
+    fromutf8 <hex>      → ok:<hex> | err:<upto>:<hex> (`from_utf8`, `TryFrom<bytes>`)
+    utf16 <hex16>       → ok:<hex> | err            (`String::from_utf16`)
+    utf16lossy <hex16>  → hex                       (`String::from_utf16_lossy`)
+    unpaired <hex16>    → 1 | 0                     (`hasUnpairedSurrogate false`)
+  Door table (`Model/DoorCalls.lean`, names separated by `|`, `-` = none):
+    doors               → every row of Gen/Doors that needs a differential, `<name>\t<must|may>`
+    doorcalls / doorskips → the reviewed copy of doordrive's call table / skip list
+    dooruncovered       → rows with neither call nor skip, and "must" rows that are not called
   anything else → `bad-op`.
   Batching: several operations may be put on one line separated by `;`; the answers come
   back on one line joined by `;`.
 -/
 import HipVerif.Model.Utf8
+import HipVerif.Model.Utf8Conv
+import HipVerif.Model.DoorCalls
 
 open HipVerif.Utf8
 
@@ -49,6 +62,32 @@ def hex (bs : List UInt8) : String :=
 
 def bit (b : Bool) : String := if b then "1" else "0"
 
+def unhex16 (s : String) : Option (List UInt16) :=
+  match unhex s with
+  | none => none
+  | some bs =>
+    let rec go : List UInt8 → List UInt16 → Option (List UInt16)
+      | [], acc => some acc.reverse
+      | [_], _ => none
+      | a :: b :: rest, acc => go rest (UInt16.ofNat (a.toNat * 256 + b.toNat) :: acc)
+    go bs []
+
+def joinBar (xs : List String) : String := if xs.isEmpty then "-" else "|".intercalate xs
+
+open HipVerif.Model.Doors in
+def doorsNeeded : String :=
+  joinBar ((HipVerif.Gen.Doors.doors.filter needsDifferential).map fun d =>
+    d.name ++ "\t" ++ (if mustBeCalled d then "must" else "may"))
+
+open HipVerif.Model.Doors in
+def keyNames (ks : List Nat) : String := joinBar (ks.map HipVerif.Model.PubFns.decKey)
+
+open HipVerif.Model.Doors in
+def doorUncovered : String :=
+  joinBar ((uncoveredDoors.map fun d => "uncovered " ++ d.name ++ " @ " ++ d.loc) ++
+    (uncalledMustDoors.map fun d => "must-call " ++ d.name ++ " @ " ++ d.loc) ++
+    (staleDoorCalls.map fun k => "stale " ++ HipVerif.Model.PubFns.decKey k))
+
 def runOp (op : String) : String :=
   match (op.trimAscii.toString.splitOn " ").filter (· ≠ "") with
   | ["valid", h] => match unhex h with | some s => bit (valid s) | none => "bad-op"
@@ -69,6 +108,32 @@ def runOp (op : String) : String :=
   | ["lower", h] => match unhex h with | some s => hex (s.map asciiLower) | none => "bad-op"
   | ["upper", h] => match unhex h with | some s => hex (s.map asciiUpper) | none => "bad-op"
   | ["lossy", h] => match unhex h with | some s => hex (decodeLossy s) | none => "bad-op"
+  | ["tostr", h] =>
+    match unhex h with
+    | some s => (match toStr s with | some r => "some:" ++ hex r | none => "none")
+    | none => "bad-op"
+  | ["intostr", h] =>
+    match unhex h with
+    | some s => (match intoStr s with | .ok r => "ok:" ++ hex r | .error e => "err:" ++ hex e)
+    | none => "bad-op"
+  | ["fromutf8", h] =>
+    match unhex h with
+    | some s =>
+      (match fromUtf8 s with
+       | .ok r => "ok:" ++ hex r
+       | .error (k, e) => "err:" ++ toString k ++ ":" ++ hex e)
+    | none => "bad-op"
+  | ["utf16", h] =>
+    match unhex16 h with
+    | some v => (match decodeUtf16 v with | some r => "ok:" ++ hex r | none => "err")
+    | none => "bad-op"
+  | ["utf16lossy", h] => match unhex16 h with | some v => hex (decodeUtf16Lossy v) | none => "bad-op"
+  | ["unpaired", h] =>
+    match unhex16 h with | some v => bit (hasUnpairedSurrogate false v) | none => "bad-op"
+  | ["doors"] => doorsNeeded
+  | ["doorcalls"] => keyNames HipVerif.Model.Doors.doorCalls
+  | ["doorskips"] => keyNames HipVerif.Model.Doors.doorSkips
+  | ["dooruncovered"] => doorUncovered
   | _ => "bad-op"
 
 def runLine (line : String) : String :=
